@@ -236,7 +236,7 @@ impl PB {
     }
     pub fn dir(&mut self, magic: &[u8; 4], name: &[u8]) {
         let s = self.begin(magic, "dir");
-        self.num(name.len() as u64, 4, false);
+        self.num(name.len() as u64, 4, true); // big-endian (fix C03-01)
         self.fields.push((self.v.len(), 1, false));
         self.v.extend_from_slice(name);
         self.end(s, true);
